@@ -74,6 +74,8 @@ fn gen_cfg(family: &str, rng: &mut Rng, case: u64) -> EngCfg {
         replay_choices: None,
         record_choices: false,
         sweep: false,
+        expire_pct: 0,
+        keep_resolved_pct: 40,
     };
     match family {
         "c01" => {
@@ -100,6 +102,9 @@ fn gen_cfg(family: &str, rng: &mut Rng, case: u64) -> EngCfg {
             cfg.send_fail_pct = *rng.pick(&[0u64, 20, 40]);
             cfg.abandon_pct = *rng.pick(&[0u64, 20, 40]);
             cfg.dup_pct = *rng.pick(&[0u64, 30, 60]);
+            // requests the wire never answers: their deadline passes while the frame is `Sent`
+            // (nobody inside), the resolved future is sometimes kept and dropped later
+            cfg.expire_pct = *rng.pick(&[0u64, 0, 15, 30]);
             if case % 4 == 0 {
                 // small configurations, systematic-ish pre-emption placement
                 cfg.slots = 1 + rng.usize_below(2);
@@ -215,6 +220,9 @@ fn record(sh: &mut Shard, prop: &str, case: u64, cfg: &EngCfg, seed: u64, res: &
     }
     sh.add("retransmissions", res.retransmissions);
     sh.add("forever_policy_observed_8_periods", res.forever_observed);
+    sh.add("resolved_futures_kept", res.resolved_futures_kept);
+    sh.add("resolved_futures_dropped_late", res.resolved_futures_dropped_late);
+    sh.add("unanswered_requests_expired_while_sent", res.doomed_expired);
     for (k, v) in &res.transitions {
         sh.add(&format!("transition.{k}"), *v);
     }
